@@ -9,6 +9,8 @@ import (
 // VTok is a vocabulary token (type + text).
 type VTok struct{ Type, Value string }
 
+var wildLiterals = []string{"\n", "\t", "\"", "\\", "'", "`", "é", "日本", "a b", "<=", "||", "\x00", "\u2028", "\"quoted\"", "%d", "\r\n", ".", "=", "(?", "~"}
+
 // numLike: the expression only matches texts made of an optional sign and Int tokens.
 func numLike(e *Expr) bool {
 	switch e.Kind {
@@ -37,6 +39,9 @@ type GenOpts struct {
 	PosStyles   bool // vary Pos/EndPos/Tokens styles (else always plain)
 	MixedUnion  bool // allow pointer and value members in one union
 	Profiles    bool // also use the default text/scanner lexer profile
+	DirectRec   bool // direct struct recursion (*Self "@@" behind a consumed token); only renderable as Go source
+	WildLits    bool // literal texts with escapes / non-ASCII (for grammars that are printed, not parsed)
+	Embeds      bool // Go-source rendering: put leading fields into an embedded named struct
 }
 
 type genCtx struct {
@@ -70,6 +75,9 @@ func (c *genCtx) leaf() *Expr {
 	case 0, 1, 2:
 		v := rapid.SampledFrom(c.g.Prof().Vocab).Draw(c.t, "lit")
 		e = Lit(v.Value)
+		if c.o.WildLits && c.draw(0, 2, "wild") == 0 {
+			e = Lit(rapid.SampledFrom(wildLiterals).Draw(c.t, "wildlit"))
+		}
 	case 3:
 		v := rapid.SampledFrom(c.g.Prof().Vocab).Draw(c.t, "tlit")
 		ty := v.Type
@@ -283,10 +291,13 @@ func (c *genCtx) gen(depth int, nn, incap bool) *Expr {
 		}
 	case 11:
 		// reference to a union, guarded by a consumed token so that recursion through the union is not left recursion
-		if incap || c.nu <= 1 {
+		if incap || (c.nu <= 1 && !c.o.DirectRec) {
 			return c.leaf()
 		}
-		u := c.draw(1, c.nu-1, "uni")
+		u := 0
+		if c.nu > 1 {
+			u = c.draw(1, c.nu-1, "uni")
+		}
 		guard := c.leaf()
 		if guard.Kind == KRef && c.g.IsElided(guard.T) || guard.T == "WS" || guard.T == "Comment" {
 			guard = Lit("(")
@@ -294,10 +305,14 @@ func (c *genCtx) gen(depth int, nn, incap bool) *Expr {
 		if rapid.Bool().Draw(c.t, "capguard") {
 			guard = Cap(guard)
 		}
-		if rapid.Bool().Draw(c.t, "closer") {
-			return Seq(guard, SubU(u), Lit(")"))
+		var ref *Expr = SubU(u)
+		if c.o.DirectRec && rapid.Bool().Draw(c.t, "direct") {
+			ref = SubP(c.stack[c.draw(0, len(c.stack)-1, "ancestor")]) // self or an enclosing production
 		}
-		return Seq(guard, SubU(u))
+		if rapid.Bool().Draw(c.t, "closer") {
+			return Seq(guard, ref, Lit(")"))
+		}
+		return Seq(guard, ref)
 	default:
 		if !incap && rapid.Bool().Draw(c.t, "capleaf2") {
 			return c.capLeaf()
@@ -478,7 +493,7 @@ func (c *genCtx) trap(depth int, nn bool) *Expr {
 // ---------------------------------------------------------------------------------------------
 // field assignment (fields are filled in tag order, so indexes must be monotone in token order)
 
-func assignFields(t *rapid.T, p *Prod, e *Expr) {
+func assignFields(t *rapid.T, p *Prod, e *Expr, pi int) {
 	var walk func(e *Expr, inNeg bool)
 	walk = func(e *Expr, inNeg bool) {
 		switch e.Kind {
@@ -514,7 +529,11 @@ func assignFields(t *rapid.T, p *Prod, e *Expr) {
 				}
 				return
 			}
-			k := rapid.SampledFrom([]FKind{FSub, FSubs, FSubV, FSubVs}).Draw(t, "sk")
+			subKinds := []FKind{FSub, FSubs, FSubV, FSubVs}
+			if e.Prod <= pi {
+				subKinds = []FKind{FSub, FSubs} // (possibly) recursive reference: pointers only
+			}
+			k := rapid.SampledFrom(subKinds).Draw(t, "sk")
 			if n > 0 && p.Fields[n-1].Kind == k && p.Fields[n-1].Prod == e.Prod && rapid.Bool().Draw(t, "reuse") {
 				e.Field = n - 1
 			} else {
@@ -595,8 +614,11 @@ func GenGrammar(t *rapid.T, o GenOpts) *Grammar {
 			g.Unions[u].Ptr = append(g.Unions[u].Ptr, pm)
 		}
 	}
-	for _, p := range g.Prods {
-		assignFields(t, p, p.Expr)
+	for i, p := range g.Prods {
+		assignFields(t, p, p.Expr, i)
+		if o.Embeds && len(p.Fields) > 0 && rapid.IntRange(0, 2).Draw(t, "embed") == 0 {
+			p.Embed = rapid.IntRange(1, len(p.Fields)).Draw(t, "nembed")
+		}
 	}
 	return g
 }
